@@ -642,6 +642,8 @@ impl LiveActor {
                 return;
             }
         };
+        #[cfg(feature = "verif-hooks")]
+        crate::verif::record_broadcast(namespace.to_bytes(), &msg);
         // TODO: We should debounce and merge these neighbor announcements likely.
         self.gossip
             .broadcast_neighbors(&namespace, msg.into())
@@ -1052,6 +1054,16 @@ impl LiveActor {
         let res = if ok { Ok(()) } else { Err(anyhow::anyhow!("download failed")) };
         self.on_download_ready(namespace, hash, res).await
     }
+    /// the real handler of a neighbour's sync report; returns true if it dialled the reporting peer
+    pub async fn verif_sync_report(&mut self, from: PublicKey, namespace: NamespaceId, heads: Vec<u8>) -> bool {
+        let before = self.running_sync_connect.len();
+        self.on_sync_report(from, SyncReport { namespace, heads }).await;
+        let started = self.running_sync_connect.len() > before;
+        self.running_sync_connect.abort_all();
+        self.running_sync_connect.detach_all();
+        started
+    }
+    pub fn verif_gossip_max_message_size(&self) -> usize { self.gossip.max_message_size() }
     pub fn verif_is_syncing(&self, namespace: &NamespaceId) -> bool { self.state.is_syncing(namespace) }
     pub fn verif_sync_handle(&self) -> SyncHandle { self.sync.clone() }
     pub async fn verif_accept_finished(&mut self, res: Result<SyncFinished, AcceptError>) -> bool {
